@@ -96,6 +96,29 @@ def must_pass(func, required, start=None, to_exception=False, kinds=None):
     return None if p is None else c.describe(p)
 
 
+_FLIP = {ast.NotIn: ast.In, ast.In: ast.NotIn, ast.NotEq: ast.Eq, ast.Eq: ast.NotEq, ast.IsNot: ast.Is, ast.Is: ast.IsNot}
+
+
+def _flipped(e):
+    """`a not in b` for `a in b` (and ==/!=, is/is not): the same fact with the opposite polarity"""
+    if isinstance(e, ast.Compare) and len(e.ops) == 1 and type(e.ops[0]) in _FLIP:
+        n = ast.Compare(left=e.left, ops=[_FLIP[type(e.ops[0])]()], comparators=e.comparators)
+        ast.copy_location(n, e)
+        n._parent = getattr(e, '_parent', None)
+        n._mod = getattr(e, '_mod', None)
+        return n
+    return None
+
+
+def accepts(accept, e, pol):
+    """accept(e, pol), also trying the complementary spelling of a comparison: a rule that waits for `k not in seen` taken true is
+    satisfied by `k in seen` taken false (guard-clause form)"""
+    if accept(e, pol):
+        return True
+    f = _flipped(e)
+    return f is not None and bool(accept(f, not pol))
+
+
 def gate(func, sink_ast, accept, extra_ok=None):
     """GATE: every path from entry to the statement/test containing `sink_ast` takes at
     least one test edge accepted by `accept(test_expr, polarity)` — or the sink's own
@@ -107,13 +130,13 @@ def gate(func, sink_ast, accept, extra_ok=None):
         raise AnchorError('no CFG node for %s in %s' % (short(sink_ast), getattr(func, 'name', '?')))
     stop = nodes[0].ast
     for e, pol in expr_guards(sink_ast, stop):
-        if accept(e, pol):
+        if accepts(accept, e, pol):
             return None
     ids = {n.id for n in nodes}
 
     def block_edge(n, k, m):
         if n.kind == 'test' and k in ('T', 'F'):
-            return accept(n.ast, k == 'T')
+            return accepts(accept, n.ast, k == 'T')
         return False
     p = c.reach([c.entry], lambda n: n.id in ids, block_edge=block_edge)
     return None if p is None else c.describe(p)
